@@ -34,6 +34,9 @@ CHECKS = {
  "C11": ("E1-history-bfs", "explicit-state BFS over operation histories on the real stores, differential against a twin store and a reference set",
          "Every reachable state of 9 store types under direct and through-view mutations up to the stated depth is visited; in each state every view is compared with the projection of a reference quad set under all pattern shapes. Exhaustive within the bound, on the real code.",
          "Small-scope hypothesis (4 triples x 4 graph names, depth bound); rustc/std; the reference set model.", "DESIGN.md §4 C11"),
+ "C12": ("E2-shape-lattice", "exhaustive enumeration of datasets over finite quad universes and of all irregular list structures up to 3 cells x option combinations, round-tripped in crash-attributing worker processes with a brute-force isomorphism oracle",
+         "Every single quad of a 1092-quad universe under all 12 option combinations, every dataset of <= 2/3 quads over a list-oriented universe in two graphs, every list structure of <= 3 cells with every combination of irregularities (typed, extra property, second rdf:first, cyclic or shared tail, 0/1/2 references, cross-graph), compound-literal shapes and inexpressible quads are serialised and parsed back with the same options; the result must be isomorphic to the input minus the inexpressible quads, without duplicates; panics/aborts/hangs are attributed to the case.",
+         "Small-scope hypothesis; the toolkit's JSON-LD parser (third-party json-ld crate) reads the output; use_native_types excluded.", "DESIGN.md §4 C12"),
  "C13": ("E2-shape-lattice", "exhaustive enumeration of the product (generated queries up to a size bound) x (all small datasets), each evaluation compared with a reference evaluator of the SPARQL 1.1 algebra",
          "Every query generated from the supported grammar up to nesting depth 2 (BGPs with repeated variables, blank-node placeholders and quoted-triple patterns, UNION, GRAPH iri/?g incl. absent graphs and nested GRAPH, FILTER and BIND over expressions of depth <= 2 incl. unbound variables and type errors, DISTINCT, projection, OFFSET/LIMIT, ASK) is evaluated on every dataset of the bounded family and compared as a multiset of solutions with the reference; unsupported operators must answer NotImplemented; no panic.",
          "Reference evaluator written from SPARQL 1.1 section 18; bounded query size and dataset size; OFFSET/LIMIT compared as sub-multisets of the right size.", "DESIGN.md §4 C13"),
